@@ -70,7 +70,7 @@ func genC03(r *rand.Rand, tier string, idx int) *World {
 	}
 	b, _ := json.Marshal(assign)
 	w.Extra["assign"] = string(b)
-	w.Extra["rounds"] = pick(r, "0", "0", "3")
+	w.Extra["rounds"] = pick(r, "0", "3", "3")
 	w.Cfg = Config{Kubelet: true, MapOrder: pick(r, 0, 0, 0, 1, 2)}
 	if idx%2 == 1 {
 		w.Cfg.PReject = pick(r, 0.0, 0.05, 0.2)
@@ -135,8 +135,25 @@ func bodyC03(s *Sim) {
 	s.RunTask(CtrlERS, rk)
 	if s.W.Extra["rounds"] != "0" {
 		for i := 0; i < 3; i++ {
-			if s.rngSched.IntN(2) == 0 {
+			switch s.rngSched.IntN(3) {
+			case 0:
 				s.settleAll()
+			case 1:
+				// readiness flaps: the number of available up-to-date pods drops between two syncs
+				for _, p := range s.Store.Pods() {
+					if p.DeletionTimestamp != nil {
+						if s.rngSched.IntN(2) == 0 {
+							s.Store.Remove(objKey{KPod, p.Namespace, p.Name})
+						}
+						continue
+					}
+					if podReady(p) && s.rngSched.IntN(3) == 0 {
+						setPodCond(p, corev1.PodReady, corev1.ConditionFalse, "ContainersNotReady", s.kubeletNow())
+						s.Store.ForceUpdate(p)
+					} else if !podReady(p) && s.rngSched.IntN(2) == 0 {
+						s.kSettle(p)
+					}
+				}
 			}
 			s.Advance(11 * time.Second)
 			s.RunTask(CtrlERS, rk)
@@ -723,12 +740,12 @@ func genC09Inject(r *rand.Rand, tier string, idx int) *World {
 		SlowStartInterval:  pick(r, "1s", "10s", "1m", "5m"),
 		SlowStartIncrease:  pick(r, "1", "2", "5", "10%", "50%"),
 		ReconcileFrequency: pick(r, "1s", "10s", "1m"),
-		MaxUnavailable:     pick(r, "1", "3", "25%"),
+		MaxUnavailable:     pick(r, "1", "3", "25%", "100%"),
 	}
 	e.Strategy.MaxParallel = i32(pick(r, int32(1), 2, 5, 250))
 	w.EDS = []*EDSDef{e}
 	w.Extra["requests"] = fmt.Sprint(5 + r.IntN(16))
-	w.Extra["update"] = pick(r, "0", "0", "1")
+	w.Extra["update"] = pick(r, "0", "1", "2", "2")
 	w.Cfg = Config{Kubelet: true, MapOrder: pick(r, 0, 1, 2), Stall: chance(r, 0.3)}
 	if idx%3 == 2 {
 		w.Cfg.PReject = pick(r, 0.02, 0.1)
@@ -750,6 +767,16 @@ func bodyC09Inject(s *Sim) {
 	for i := 0; i < reqs; i++ {
 		if i == reqs/2 && s.W.Extra["update"] == "1" {
 			s.userSetTemplate(def.NS, def.Name, "B")
+			s.RunTask(CtrlEDS, key)
+			s.RunTask(CtrlEDS, key)
+		}
+		if s.W.Extra["update"] == "2" && (i == reqs/3 || i == 2*reqs/3) {
+			// A -> B -> A: the first replica set is re-activated after having been inactive
+			l := "B"
+			if i == 2*reqs/3 {
+				l = "A"
+			}
+			s.userSetTemplate(def.NS, def.Name, l)
 			s.RunTask(CtrlEDS, key)
 			s.RunTask(CtrlEDS, key)
 		}
